@@ -345,6 +345,18 @@ def cardinality(P, chk):
                 islen = q.all_roots(b, lo, lambda r: r.kind == "call" and r.name == "std::collections::HashMap::len")
                 if islen and c is not None and ((rel == "Le" and c <= 1) or (rel == "Lt" and c <= 2) or (rel == "Eq" and c <= 1)):
                     g = True
+            if not g:
+                # `match (it.next(), it.next())`: Ok only where the first next() was None (no commodity) or the second one was
+                # (exactly one commodity)
+                nexts = [nb for nb, t in b.calls() if (callee_def(t) or "") == "std::iter::Iterator::next" and t["args"] and
+                         all(q.is_param(r, "value", ("values",)) for cn, r in q.chains(b, t["args"][0])) and q.chains(b, t["args"][0])]
+                if nexts and not any(nb in blks for blks in b.loops().values() for nb in nexts):
+                    first = [n for n in nexts if all(n == m or b.must_pass_block(m, n) for m in nexts)]
+                    for a in mir.guards_at(b, bb):
+                        if a.kind == "variant" and tuple(a.label) == ("None",):
+                            sites = [r.site for r in a.subject if r.kind == "call" and r.site in nexts]
+                            if sites and (len(nexts) >= 2 and all(s_ not in first for s_ in sites) and len(nexts) == 2 or all(s_ in first for s_ in sites)):
+                                g = True
             good = good and g
         chk.require(good, R_CARD, "TryFrom<&Amount> for %s|Ok only when len() <= 1" % short, b.loc(),
                     "an Ok conversion is reachable without the number of commodities being tested <= 1",
